@@ -160,12 +160,7 @@ class MultiWorld(schedeng.World):
         self.all_tokens = []
         for s in range(self.ns):
             self.T[s] = self._new_token(s)
-            pt = []
-            for tot in spec.get("ptokens", []):
-                t = ProcessCounterToken(tot)
-                t.dependents._dependents = OSet()
-                pt.append(t)
-            self.ptoks.append(pt)
+            self.ptoks.append(self._new_ptoks())
         HookPath.engine = self
         self.jobsched = {}
         self.gone_orphans = set()
@@ -190,6 +185,14 @@ class MultiWorld(schedeng.World):
             self.schs.append(sch)
         else:
             self.loops[s], self.xps[s], self.schs[s] = loop, xp, sch
+
+    def _new_ptoks(self):
+        pt = []
+        for tot in self.mspec.get("ptokens", []):
+            t = ProcessCounterToken(tot)
+            t.dependents._dependents = OSet()
+            pt.append(t)
+        return pt
 
     def _new_token(self, s):
         world = self
@@ -461,6 +464,7 @@ class MultiWorld(schedeng.World):
             self.watched[s] = []
             self._new_sched(s)
             self.T[s] = self._new_token(s)
+            self.ptoks[s] = self._new_ptoks()  # process-level tokens live in the (new) process
             self._log(["restart", s], {"ok": True, "notify": False})
         else:
             raise ValueError(ev)
@@ -599,7 +603,7 @@ def quiescence_monitors(w, submitted_all):
     return fails
 
 
-def run_schedule(spec, chooser, faults=None, max_events=3000):
+def run_schedule(spec, chooser, faults=None, max_events=1500):
     """drives one run; `chooser(choices) -> event`; returns dict(events, oplog, viol, quiescent, sobs)"""
     w = MultiWorld(spec)
     try:
@@ -622,13 +626,18 @@ def run_schedule(spec, chooser, faults=None, max_events=3000):
         viol = list(w.viol)
         if quiescent:
             viol += quiescence_monitors(w, not pending)
+        elif not w.observer_died:
+            so = w.sobs()
+            stuck = [i for i, x in enumerate(so) if x is not None and x["future"] == "pending" and not x["orphan"]]
+            viol.append(("C09", "livelock", f"after {max_events} events jobs {stuck} are still not final "
+                         f"(states {[so[i]['state'] for i in stuck]}, launches {[so[i]['launches'] for i in stuck]}): starts are retried for ever"))
         return {"events": events, "oplog": list(w.oplog), "viol": viol, "quiescent": quiescent, "sobs": w.sobs(),
                 "final": w.tobs()}
     finally:
         w.close()
 
 
-def run_random(spec, rng, faults=None, fault_p=0.04, max_events=3000):
+def run_random(spec, rng, faults=None, fault_p=0.04, max_events=1500):
     budget = {"drop": 1, "restart": 1, "race": 3}
 
     def chooser(w, ch, fch):
@@ -646,7 +655,7 @@ def run_random(spec, rng, faults=None, fault_p=0.04, max_events=3000):
     return run_schedule(spec, chooser, faults, max_events)
 
 
-def run_replay(spec, events, complete=True, max_events=3000):
+def run_replay(spec, events, complete=True, max_events=1500):
     """replays `events` as far as they are enabled, then (complete) finishes with the first choice"""
     queue = list(events)
 
